@@ -43,6 +43,9 @@ TERMINALS = ("identity", "distinct", "frequencies", "topk", "fold", "reduction",
              "any", "all", "product", "join", "foldby", "product_self", "join_self")
 
 
+GC_EACH_RUN = True  # see sim/worker.run_tape
+
+
 def tier_cfg(tier):
     return {"maxlen": 6 if tier == "quick" else 12}
 
